@@ -1,5 +1,271 @@
-use crate::mc::Eng;
+//! C17 (a) — a Reference, its clones and its to_dyn! conversion all denote one shared object
+//! (sequential aliasing clause; the thread clause and the downstream-crate clause are driven
+//! from driver/c17_extra.py).
+use crate::mc::*;
 use crate::Ctx;
-pub fn run(_ctx: &Ctx) -> Vec<Eng> {
-    vec![]
+use rrtk::*;
+use std::sync::atomic::{AtomicBool, Ordering};
+use std::sync::Arc;
+
+pub trait Val {
+    fn getv(&self) -> i64;
+    fn setv(&mut self, v: i64);
+}
+pub struct Pl {
+    v: i64,
+    dropped: Arc<AtomicBool>,
+}
+impl Val for Pl {
+    fn getv(&self) -> i64 {
+        self.v
+    }
+    fn setv(&mut self, v: i64) {
+        self.v = v;
+    }
+}
+impl Drop for Pl {
+    fn drop(&mut self) {
+        self.dropped.store(true, Ordering::SeqCst);
+    }
+}
+
+#[derive(Clone, Copy, Debug, PartialEq)]
+pub enum Variant {
+    Ptr,
+    RcRefCell,
+    #[cfg(feature = "std")]
+    PtrRwLock,
+    #[cfg(feature = "std")]
+    PtrMutex,
+    #[cfg(feature = "std")]
+    ArcRwLock,
+    #[cfg(feature = "std")]
+    ArcMutex,
+}
+pub fn variants() -> Vec<Variant> {
+    vec![
+        Variant::Ptr,
+        Variant::RcRefCell,
+        #[cfg(feature = "std")]
+        Variant::PtrRwLock,
+        #[cfg(feature = "std")]
+        Variant::PtrMutex,
+        #[cfg(feature = "std")]
+        Variant::ArcRwLock,
+        #[cfg(feature = "std")]
+        Variant::ArcMutex,
+    ]
+}
+impl Variant {
+    fn refcounted(&self) -> bool {
+        match self {
+            Variant::RcRefCell => true,
+            #[cfg(feature = "std")]
+            Variant::ArcRwLock | Variant::ArcMutex => true,
+            _ => false,
+        }
+    }
+    /// variants the to_dyn! macro lists
+    fn dyn_listed(&self) -> bool {
+        match self {
+            Variant::Ptr | Variant::RcRefCell => true,
+            #[cfg(feature = "std")]
+            Variant::PtrRwLock => true,
+            _ => false,
+        }
+    }
+}
+
+enum Handle {
+    C(Reference<Pl>),
+    D(Reference<dyn Val>),
+}
+impl Handle {
+    fn read(&self) -> i64 {
+        match self {
+            Handle::C(r) => {
+                let a = r.borrow().getv();
+                let b = r.borrow_mut().getv();
+                assert_eq!(a, b);
+                a
+            }
+            Handle::D(r) => r.borrow().getv(),
+        }
+    }
+    fn write(&self, v: i64) {
+        match self {
+            Handle::C(r) => r.borrow_mut().setv(v),
+            Handle::D(r) => r.borrow_mut().setv(v),
+        }
+    }
+    fn dup(&self) -> Handle {
+        match self {
+            Handle::C(r) => Handle::C(r.clone()),
+            Handle::D(r) => Handle::D(r.clone()),
+        }
+    }
+}
+
+/// the leaked allocation of pointer variants, reclaimed by the harness after the run
+enum Leak {
+    None,
+    P(*mut Pl),
+    #[cfg(feature = "std")]
+    RW(*mut std::sync::RwLock<Pl>),
+    #[cfg(feature = "std")]
+    MX(*mut std::sync::Mutex<Pl>),
+}
+
+fn make(v: Variant, flag: &Arc<AtomicBool>) -> (Reference<Pl>, Leak) {
+    let pl = Pl { v: 0, dropped: flag.clone() };
+    match v {
+        Variant::Ptr => {
+            let p = Box::into_raw(Box::new(pl));
+            (unsafe { Reference::from_ptr(p) }, Leak::P(p))
+        }
+        Variant::RcRefCell => (rc_ref_cell_reference(pl), Leak::None),
+        #[cfg(feature = "std")]
+        Variant::PtrRwLock => {
+            let p = Box::into_raw(Box::new(std::sync::RwLock::new(pl)));
+            (unsafe { Reference::from_ptr_rw_lock(p as *const _) }, Leak::RW(p))
+        }
+        #[cfg(feature = "std")]
+        Variant::PtrMutex => {
+            let p = Box::into_raw(Box::new(std::sync::Mutex::new(pl)));
+            (unsafe { Reference::from_ptr_mutex(p as *const _) }, Leak::MX(p))
+        }
+        #[cfg(feature = "std")]
+        Variant::ArcRwLock => (arc_rw_lock_reference(pl), Leak::None),
+        #[cfg(feature = "std")]
+        Variant::ArcMutex => (arc_mutex_reference(pl), Leak::None),
+    }
+}
+
+const SLOTS: usize = 3;
+const OPN: [&str; 5] = ["clone", "to_dyn", "read", "write", "drop"];
+fn show(seq: &[usize]) -> String {
+    seq.iter().map(|&s| format!("{}(h{})", OPN[s / SLOTS], s % SLOTS)).collect::<Vec<_>>().join(",")
+}
+
+fn run_seq(v: Variant, seq: &[usize], e: &mut Eng) -> u64 {
+    let flag = Arc::new(AtomicBool::new(false));
+    let mut leak = Leak::None;
+    let r = guard(|| -> Result<bool, (usize, String)> {
+        let (orig, l) = make(v, &flag);
+        leak = l;
+        let mut hs: [Option<Handle>; SLOTS] = [Some(Handle::C(orig)), None, None];
+        let mut cell: i64 = 0; // model: one cell
+        let mut count = 1usize; // model: number of live handles
+        let mut interesting = false;
+        for (k, &s) in seq.iter().enumerate() {
+            let (op, i) = (s / SLOTS, s % SLOTS);
+            match op {
+                0 => {
+                    if let Some(h) = &hs[i] {
+                        if let Some(free) = (0..SLOTS).find(|&j| hs[j].is_none()) {
+                            hs[free] = Some(h.dup());
+                            count += 1;
+                        }
+                    }
+                }
+                1 => {
+                    if v.dyn_listed() {
+                        if let Some(Handle::C(_)) = &hs[i] {
+                            if let Some(Handle::C(r)) = hs[i].take() {
+                                let d: Reference<dyn Val> = to_dyn!(Val, r);
+                                hs[i] = Some(Handle::D(d));
+                                interesting = true;
+                            }
+                        }
+                    }
+                }
+                2 => {
+                    if let Some(h) = &hs[i] {
+                        let got = h.read();
+                        if got != cell {
+                            return Err((k, format!("read through handle {} gave {} but the last write through any handle was {}", i, got, cell)));
+                        }
+                        if count >= 2 {
+                            interesting = true;
+                        }
+                    }
+                }
+                3 => {
+                    if let Some(h) = &hs[i] {
+                        cell = 100 + k as i64;
+                        h.write(cell);
+                    }
+                }
+                _ => {
+                    if hs[i].take().is_some() {
+                        count -= 1;
+                    }
+                }
+            }
+            let dropped = flag.load(Ordering::SeqCst);
+            let want = count == 0 && v.refcounted();
+            if dropped != want {
+                return Err((k, format!("target dropped = {} with {} live handle(s) (variant {:?})", dropped, count, v)));
+            }
+        }
+        // every surviving handle still sees the last write
+        for i in 0..SLOTS {
+            if let Some(h) = &hs[i] {
+                let got = h.read();
+                if got != cell {
+                    return Err((seq.len(), format!("at the end handle {} reads {} but the cell holds {}", i, got, cell)));
+                }
+            }
+        }
+        drop(hs);
+        let dropped = flag.load(Ordering::SeqCst);
+        if dropped != v.refcounted() {
+            return Err((seq.len(), format!("after the last handle went away target dropped = {} (variant {:?})", dropped, v)));
+        }
+        Ok(interesting)
+    });
+    // reclaim what the pointer variants leaked
+    unsafe {
+        match leak {
+            Leak::P(p) => drop(Box::from_raw(p)),
+            #[cfg(feature = "std")]
+            Leak::RW(p) => drop(Box::from_raw(p)),
+            #[cfg(feature = "std")]
+            Leak::MX(p) => drop(Box::from_raw(p)),
+            Leak::None => {}
+        }
+    }
+    e.checks += seq.len() as u64;
+    match r {
+        Ok(Ok(nt)) => {
+            if nt {
+                e.nontrivial += 1;
+            }
+        }
+        Ok(Err((k, m))) => e.violation(&format!("reference:{:?}:aliasing", v), k + 1, || format!("{:?} ops [{}]: {}", v, show(&seq[..seq.len().min(k + 1)]), m)),
+        Err(m) => {
+            let cls = if m.contains("not implemented") { "to_dyn-unimplemented" } else { "panic" };
+            e.violation(&format!("reference:{:?}:{}", v, cls), seq.len(), || format!("{:?} ops [{}] panicked: {}", v, show(seq), m))
+        }
+    }
+    seq.len() as u64
+}
+
+pub fn run(ctx: &Ctx) -> Vec<Eng> {
+    let budget = Budget::secs(if ctx.thorough { 2000 } else { 120 });
+    let depth = if ctx.thorough { 7 } else { 5 };
+    let mut e = Eng::new(
+        "c17-aliasing-seqs",
+        "for each Reference variant of the build: all sequences of exactly `depth` operations over {clone(h), to_dyn!(h) (variants the macro lists), read(h) (through borrow and borrow_mut), write(h, fresh value), drop(h)} x 3 handle slots on a fresh target; reference model = one cell + live-handle count: every read through any handle returns the last write, the payload's drop flag flips exactly when the last handle of an Rc/Arc variant goes away and never for pointer variants; non-trivial = a read while at least two handles are live, or a to_dyn! conversion",
+        &format!("depth {} => 15^{} sequences x {} variants", depth, depth, variants().len()),
+    );
+    for v in variants() {
+        par_seqs(&mut e, 5 * SLOTS, depth, budget, |seq, e| {
+            e.outcome(h64(&(v as u8, seq)));
+            let a = run_seq(v, seq, e);
+            e.sample(|| format!("{:?} [{}]", v, show(seq)));
+            a
+        });
+    }
+    vec![e]
 }
